@@ -482,8 +482,9 @@ def exact_violation(case, obs):
             how = "raise" if ob["out"] else "return"
             if longer:
                 return f"state-restored/paths-tiled-after-{how}", \
-                    f"call {ci + 1} ({CODE_NAME[ob['out']]}: {ob['exc']}) left path lengths " \
-                    f"{[len(a[0]) for a in ob['store']]} instead of {[len(a[0]) for a in init]}"
+                    f"call {ci + 1} ({CODE_NAME[ob['out']]}: {ob['exc']}) left position/orientation path lengths " \
+                    f"{[(len(a[0]), len(a[1])) for a in ob['store']]} instead of " \
+                    f"{[(len(a[0]), len(a[1])) for a in init]}"
             return f"state-restored/path-values-after-{how}", f"call {ci + 1} changed path values"
     return None
 
@@ -874,11 +875,14 @@ def check_scene(sc):
         if hasattr(v1, "select_dtypes"):
             v1, v2 = v1.select_dtypes("number").to_numpy(), v2.select_dtypes("number").to_numpy()
         a1, a2 = np.asarray(v1, dtype=float), np.asarray(v2, dtype=float)
-        small = a1.shape == a2.shape and np.allclose(a1, a2, rtol=1e-9, atol=1e-300)
-        if bits:
+        # same root cause as the re-normalised quaternions when the values agree relative to the field scale
+        small = a1.shape == a2.shape and bool(np.all(np.isfinite(a1) == np.isfinite(a2))) and \
+            float(np.nanmax(np.abs(np.where(np.isfinite(a1), a1 - a2, 0.0)), initial=0.0)) <= \
+            1e-9 * max(float(np.nanmax(np.abs(np.where(np.isfinite(a1), a1, 0.0)), initial=0.0)), 1e-300)
+        if bits and small:
             out.append(("identical-result/orientation-bits-after-tiling",
                         "the second identical call returned a value differing in the last bits "
-                        f"(max abs diff {np.abs(a1 - a2).max():.1e})"))
+                        f"(max abs diff {np.nanmax(np.abs(a1 - a2)):.1e})"))
         else:
             out.append(("identical-result/value", "the second identical call returned a different value"))
     third = deep_snapshot(allobjs)
